@@ -44,8 +44,24 @@ def regCmd (st : RegState) (cmd : String) (args : List String) : Option (RegStat
         (r', match p with | some t => t :: acc.2 | none => acc.2)) (r, [])
       let wres := if w = "1" then (if r.waitBlocksKey 1 then "stuck" else "ok") else "-"
       let r3 := (List.range n).foldl (fun (r : Registry) i => r.close (i + 1)) r2
-      some (st, s!"open={n} all={r.all.length} ready={b (r.readyKey 1)} distinct={picks.eraseDups.length} waiter={wres} " ++
-                s!"closed={n} left={r3.all.length} readyafter={b (r3.readyKey 1)}")
+      -- the same round in the atomic-step registration model (`RegAtomic`): all registrations interleaved step by step,
+      -- then every tunnel closed and every goroutine run to its end; by C12_registry_exact_at_rest /
+      -- C14_registry_nothing_left_behind the observations do not depend on the interleaving chosen here
+      let ts := List.range n
+      let up := ts.map RegAtomic.Act.addGlobal ++ ts.map RegAtomic.Act.getPool ++ ts.map RegAtomic.Act.addKey
+      let down := ts.map RegAtomic.Act.close ++ ts.map RegAtomic.Act.uRemGlobal ++ ts.map RegAtomic.Act.uLookup ++
+                  ts.map RegAtomic.Act.uRemKey ++ ts.map RegAtomic.Act.remKey ++ ts.map RegAtomic.Act.remGlobal
+      match RegAtomic.run true false (RegAtomic.init (List.replicate n 1)) up with
+      | none => some (st, "model-stuck")
+      | some a1 =>
+        match RegAtomic.run true false a1 down with
+        | none => some (st, "model-stuck")
+        | some a2 =>
+          let agree := (RegAtomic.globalIds a1).length == r.all.length && (RegAtomic.keyPool a1 1).length == picks.eraseDups.length &&
+                       RegAtomic.resting true a1 && RegAtomic.allOver a2 && (RegAtomic.globalIds a2).length == r3.all.length
+          if !agree then some (st, "models-disagree") else
+          some (st, s!"open={n} all={(RegAtomic.globalIds a1).length} ready={b (r.readyKey 1)} distinct={(RegAtomic.keyPool a1 1).length} waiter={wres} " ++
+                    s!"closed={n} left={(RegAtomic.globalIds a2).length + (RegAtomic.keyPool a2 1).length} readyafter={b (r3.readyKey 1)}")
     | _, _ => some (st, "bad-op")
   | "r.open" =>
     match kvNat args "t", kv args "key" with
